@@ -177,7 +177,7 @@ class Gen:
         if k == 7:
             return "(notapi %s)" % x
         if k == 8 and self.subqueries:
-            return "(insub %s %s)" % (x, self.select(d - 1))
+            return "(%s %s %s)" % (r.choice(["insub", "insub", "notinsub"]), x, self.select(d - 1))
         if k == 9 and self.subqueries:
             return "(exists %s)" % self.select(d - 1)
         tw = r.randrange(1, 5)
